@@ -260,16 +260,17 @@ class ExcludeRegionState(object):  # pylint: disable=too-many-instance-attribute
         boolean
             True if any point in the list is contained in an excluded region, False otherwise.
         """
-        if (self._exclusionEnabled):
-            xAxis = self.position.X_AXIS
-            yAxis = self.position.Y_AXIS
+        # The position is tracked even while exclusion is disabled, so that the decisions made
+        # after it is enabled again are based on the actual tool position
+        xAxis = self.position.X_AXIS
+        yAxis = self.position.Y_AXIS
 
-            for index in range(0, len(xyPairs), 2):
-                x = xAxis.setLogicalPosition(xyPairs[index])
-                y = yAxis.setLogicalPosition(xyPairs[index + 1])
+        for index in range(0, len(xyPairs), 2):
+            x = xAxis.setLogicalPosition(xyPairs[index])
+            y = yAxis.setLogicalPosition(xyPairs[index + 1])
 
-                if (self.isPointExcluded(x, y)):
-                    return True
+            if (self._exclusionEnabled and self.isPointExcluded(x, y)):
+                return True
 
         return False
 
